@@ -1429,6 +1429,11 @@ class Run:
                       else bool(exists))
         except (PropertyViolation, StepBudgetExceeded):
             raise
+        except RecursionError:
+            # (a chain of callbacks each issuing a further operation, as deep as the interpreter allows: the query asked
+            # from down there cannot run - that ends the case like the same error in an operation does)
+            self.flags['reaction_chain_hit_the_recursion_limit'] += 1
+            raise Abort('recursion limit')
         except Exception as exc:
             self.viol('query_raised', where='inside ' + kind, exception=repr(exc))
         self.flags['queries_from_inside_a_callback'] += 1
